@@ -32,5 +32,318 @@ theorem uvintEnc_eq_spec (v : BitVec 64) : uvintEnc v = uvintSpec v.toNat := by
     have h0 : ¬ (e = 0) := by omega
     have h8 : ¬ (e = 8) := by omega
     simp [uvintSpec, this, h0, h8]
+theorem zigzag_eq_spec (v : BitVec 64) : (zigzagEnc v).toNat = zigzagSpec v.toInt := by
+  unfold zigzagEnc zigzagSpec
+  rw [sshiftRight_63]
+  have hlt := v.isLt
+  cases hm : v.msb with
+  | false =>
+    have h63 : v.toNat < 2 ^ 63 := by
+      have := BitVec.msb_eq_decide v
+      rw [hm] at this
+      simpa using this
+    have hi : v.toInt = v.toNat := by
+      rw [BitVec.toInt_eq_toNat_cond]; split <;> omega
+    simp only [Bool.false_eq_true, if_false, BitVec.zero_xor, BitVec.toNat_shiftLeft]
+    rw [hi]
+    have : (0 : Int) ≤ v.toNat := by omega
+    simp only [this, if_true]
+    rw [Nat.shiftLeft_eq]
+    omega
+  | true =>
+    have h63 : 2 ^ 63 ≤ v.toNat := by
+      have := BitVec.msb_eq_decide v
+      rw [hm] at this
+      simpa using this
+    have hi : v.toInt = v.toNat - 2 ^ 64 := by
+      rw [BitVec.toInt_eq_toNat_cond]; split <;> omega
+    simp only [if_true]
+    rw [BitVec.allOnes_xor, BitVec.toNat_not, BitVec.toNat_shiftLeft, Nat.shiftLeft_eq, hi]
+    have hneg : ¬ ((0 : Int) ≤ (v.toNat : Int) - 2 ^ 64) := by omega
+    simp only [hneg, if_false]
+    omega
+
+theorem vintEnc_eq_spec (v : BitVec 64) : vintEnc v = svintSpec v := by
+  unfold vintEnc svintSpec
+  rw [uvintEnc_eq_spec, zigzag_eq_spec]
+
+theorem vintEnc32_eq_spec (x : BitVec 32) : vintEnc (x.signExtend 64) = svintSpec x := by
+  rw [vintEnc_eq_spec]
+  unfold svintSpec
+  rw [BitVec.toInt_signExtend_of_le (by omega)]
+
+/-! ### tables -/
+
+theorem fixedWidth_eq : ∀ t : CqlTy, fixedWidth t = t.sizeForVector
+  | .native n => by cases n <;> rfl
+  | .vector t dim => by
+    simp only [fixedWidth, CqlTy.sizeForVector, fixedWidth_eq t]
+    rfl
+  | .list _ => rfl
+  | .set _ => rfl
+  | .map _ _ => rfl
+  | .tuple _ => rfl
+  | .udt _ _ _ => rfl
+
+/-- The implementation model's scalar table against §6. -/
+theorem scalar_spec (n : NativeTy) (v : CqlVal) (acc : List NativeTy) (body : Bytes) (viaB : Bool)
+    (hv : viewOf v = .scalar acc body viaB) (hn : n ∈ acc) : specNative n v = some body := by
+  cases v <;> simp [viewOf] at hv <;> obtain ⟨rfl, rfl, _⟩ := hv <;> simp at hn <;>
+    first
+    | (subst hn; simp [specNative]; rw [vintEnc32_eq_spec, vintEnc32_eq_spec, vintEnc_eq_spec]; done)
+    | (subst hn; simp [specNative])
+    | (rcases hn with rfl | rfl <;> simp [specNative])
+
+theorem lookupLast_eq_filter (n : String) : ∀ m : List (String × CqlVal),
+    lookupLast n m = ((m.filter (fun p => p.1 == n)).getLast?).map (·.2)
+  | [] => rfl
+  | (k, v) :: r => by
+    simp only [lookupLast, lookupLast_eq_filter n r]
+    by_cases hk : k = n
+    · subst hk
+      simp only [List.filter_cons, beq_self_eq_true, if_true]
+      cases hf : List.filter (fun p => p.1 == k) r with
+      | nil => simp
+      | cons a l =>
+        have : (a :: l).getLast? = some ((a :: l).getLast (by simp)) := List.getLast?_eq_some_getLast (by simp)
+        simp [this]
+    · have : ((k, v).1 == n) = false := by simp [hk]
+      simp only [List.filter_cons, this, Bool.false_eq_true, if_false, hk]
+      cases ((List.filter (fun p => p.1 == n) r).getLast?) <;> rfl
+
+theorem fieldOf_eq (n : String) (m : List (String × CqlVal)) : fieldOf n m = lookupOrNull n m := by
+  unfold fieldOf lookupOrNull
+  rw [lookupLast_eq_filter]
+  cases (List.filter (fun p => p.1 == n) m).getLast? <;> rfl
+
+/-! ### unfolding `specBody` along the serializer's view of the value -/
+
+theorem specBody_scalar (t : CqlTy) (v : CqlVal) (acc : List NativeTy) (b : Bytes) (viaB : Bool)
+    (h : viewOf v = .scalar acc b viaB) : specBody t v = match t with | .native n => specNative n v | _ => none := by
+  cases v <;> simp [viewOf] at h <;> cases t <;> simp [specBody, elemsOf, specNative]
+
+theorem specBody_empty (t : CqlTy) : specBody t .empty = some [] := by simp [specBody]
+
+theorem specBody_list (elt : CqlTy) (v : CqlVal) (vs : List CqlVal) (h : viewOf v = .seq vs) :
+    specBody (.list elt) v = (catOpt (fun x => specCell elt x) vs).map (fun cells => beBytes 4 vs.length ++ cells) := by
+  cases v <;> simp [viewOf] at h <;> subst h <;> simp [specBody, elemsOf]
+
+theorem specBody_set (elt : CqlTy) (v : CqlVal) (vs : List CqlVal) (h : viewOf v = .seq vs) :
+    specBody (.set elt) v = (catOpt (fun x => specCell elt x) vs).map (fun cells => beBytes 4 vs.length ++ cells) := by
+  cases v <;> simp [viewOf] at h <;> subst h <;> simp [specBody, elemsOf]
+
+theorem specBody_vector (elt : CqlTy) (dim : Nat) (v : CqlVal) (vs : List CqlVal) (h : viewOf v = .seq vs) :
+    specBody (.vector elt dim) v =
+      (if vs.length = dim then vectorBody (fun x => specBody elt x) (fixedWidth elt).isSome vs else none) := by
+  cases v <;> simp [viewOf] at h <;> subst h <;> simp [specBody, elemsOf]
+
+theorem specBody_map (kt vt : CqlTy) (v : CqlVal) (kvs : List (CqlVal × CqlVal)) (h : viewOf v = .map kvs) :
+    specBody (.map kt vt) v =
+      (catOpt (pairCell (fun k => specCell kt k) (fun x => specCell vt x)) kvs).map
+        (fun cells => beBytes 4 kvs.length ++ cells) := by
+  cases v <;> simp [viewOf] at h <;> subst h <;> simp [specBody]
+
+theorem specBody_tuple (ts : List CqlTy) (v : CqlVal) (fs : List CqlVal) (h : viewOf v = .tuple fs) :
+    specBody (.tuple ts) v = if fs.length ≤ ts.length then specTuple ts fs else none := by
+  cases v <;> simp [viewOf] at h <;> subst h <;> simp [specBody]
+
+theorem specBody_udt (ks name : String) (fields : List (String × CqlTy)) (v : CqlVal) (vks vname : String)
+    (m : List (String × CqlVal)) (h : viewOf v = .udt vks vname m) :
+    specBody (.udt ks name fields) v = specUdt fields m := by
+  cases v <;> simp [viewOf] at h <;> obtain ⟨_, _, rfl⟩ := h <;> simp [specBody]
+
+theorem specCell_nonnull (t : CqlTy) (v : CqlVal)
+    (hn : ∀ w, viewOf v = w → (match w with | .null => False | .unset => False | _ => True)) :
+    specCell t v = (specBody t v).map bytesOf := by
+  have := hn _ rfl
+  cases v <;> simp [viewOf] at this <;> simp [specCell]
+
+/-- From the content statement at `t` to the `[bytes]` statement at `t`. -/
+theorem cell_of_body (t : CqlTy)
+    (hb : ∀ v body, encSpec t v false = .ok body → body.length < 2 ^ 64 → specBody t v = some body)
+    (v : CqlVal) (cell : Bytes) (h : encSpec t v true = .ok cell) : specCell t v = some cell := by
+  by_cases hnull : v = .null
+  · subst hnull
+    rw [encSpec] at h
+    simp only [viewOf, if_true] at h
+    cases h; simp [specCell, nullBytes]
+  by_cases hunset : v = .unset
+  · subst hunset
+    rw [encSpec] at h
+    simp only [viewOf, if_true] at h
+    cases h; simp [specCell, unsetBytes]
+  have hn : ∀ w, viewOf v = w → (match w with | .null => False | .unset => False | _ => True) := by
+    intro w hw; subst hw
+    cases v <;> simp [viewOf] at hnull hunset ⊢
+  obtain ⟨body, hbody, hlen, rfl⟩ := encSpec_cell t v cell h hn
+  have hl : body.length < 2 ^ 64 := by have := i32Max_lt; omega
+  rw [specCell_nonnull t v hn, hb v body hbody hl]
+  rfl
+
+theorem concat_cat {α : Type} (g : α → Except SerErr Bytes) (f : α → Option Bytes) :
+    ∀ (vs : List α) (cells : Bytes), (∀ x, x ∈ vs → ∀ c, g x = .ok c → f x = some c) →
+      concatEnc g vs = .ok cells → catOpt f vs = some cells := by
+  intro vs
+  induction vs with
+  | nil => intro cells _ h; simp [concatEnc] at h; subst h; rfl
+  | cons v vs ih =>
+    intro cells hall h
+    obtain ⟨c, r, hc, hr, rfl⟩ := concatEnc_cons_ok g v vs cells h
+    simp only [catOpt, hall v List.mem_cons_self c hc,
+      ih r (fun x hx => hall x (List.mem_cons_of_mem _ hx)) hr]
+
+theorem concat_cat_len {α : Type} (g : α → Except SerErr Bytes) (f : α → Option Bytes) (N : Nat) :
+    ∀ (vs : List α) (cells : Bytes), (∀ x, x ∈ vs → ∀ c, g x = .ok c → c.length < N → f x = some c) →
+      concatEnc g vs = .ok cells → cells.length < N → catOpt f vs = some cells := by
+  intro vs
+  induction vs with
+  | nil => intro cells _ h _; simp [concatEnc] at h; subst h; rfl
+  | cons v vs ih =>
+    intro cells hall h hlt
+    obtain ⟨c, r, hc, hr, rfl⟩ := concatEnc_cons_ok g v vs cells h
+    have hl : c.length < N ∧ r.length < N := by simp only [List.length_append] at hlt; omega
+    simp only [catOpt, hall v List.mem_cons_self c hc hl.1,
+      ih r (fun x hx => hall x (List.mem_cons_of_mem _ hx)) hr hl.2]
+
+/-- The content statement: what `encSpec` produces without a frame is the protocol's content. -/
+def Sound (t : CqlTy) : Prop :=
+  wfTy t = true → ∀ (v : CqlVal) (body : Bytes), encSpec t v false = .ok body → body.length < 2 ^ 64 →
+    specBody t v = some body
+
+def SoundTuple (ts : List CqlTy) : Prop :=
+  wfTys ts = true → ∀ (fs : List CqlVal) (cells : Bytes), encTupleSpec ts fs = .ok cells →
+    specTuple ts fs = some cells
+
+def SoundUdt (fields : List (String × CqlTy)) : Prop :=
+  wfFields fields = true → (fields.map (·.1)).Nodup →
+    ∀ (m m' : List (String × CqlVal)) (cells : Bytes) (l : List (String × CqlVal)),
+      (∀ f, f ∈ fields → lookupLast f.1 m' = lookupLast f.1 m) →
+      encUdtSpec fields m' = .ok (cells, l) → specUdt fields m = some cells
+
+theorem frame_false (b body : Bytes) (h : frame false b = .ok body) : body = b := by
+  simp [frame] at h; exact h.symm
+
+theorem varElem_cat (elt : CqlTy)
+    (hb : ∀ v body, encSpec elt v false = .ok body → body.length < 2 ^ 64 → specBody elt v = some body)
+    (x : CqlVal) (c : Bytes) (h : varElemSpec (fun v => encSpec elt v false) x = .ok c) (hl : c.length < 2 ^ 64) :
+    (specBody elt x).map (fun b => uvintSpec b.length ++ b) = some c := by
+  obtain ⟨eb, heb, rfl⟩ := varElemSpec_ok _ x c h
+  have hle : eb.length < 2 ^ 64 := by simp only [List.length_append] at hl; omega
+  rw [hb x eb heb hle]
+  simp only [Option.map_some, uvintEnc_eq_spec, BitVec.toNat_ofNat, Nat.mod_eq_of_lt hle]
+
+mutual
+theorem sound : ∀ t : CqlTy, Sound t
+  | .native n => by
+    intro hty v body h hlt
+    rw [encSpec] at h
+    cases hv : viewOf v with
+    | null => rw [hv] at h; simp at h
+    | unset => rw [hv] at h; simp at h
+    | empty =>
+      have : v = .empty := by cases v <;> simp [viewOf] at hv; rfl
+      subst this
+      rw [hv] at h
+      simp only [frameChecked] at h
+      split at h
+      · split at h
+        · cases h
+        · simp at h; subst h; exact specBody_empty _
+      · cases h
+    | scalar acc b viaB =>
+      rw [hv] at h
+      simp only [encScalarSpec] at h
+      split at h
+      · rename_i hn
+        have hb := frame_false_ok b body viaB h
+        subst hb
+        rw [specBody_scalar _ v acc body viaB hv]
+        exact scalar_spec n v acc body viaB hv (by simpa using hn)
+      · cases h
+    | seq vs => rw [hv] at h; cases h
+    | map kvs => rw [hv] at h; cases h
+    | tuple fs => rw [hv] at h; cases h
+    | udt ks name m => rw [hv] at h; cases h
+  | .list elt => by
+    intro hty v body h hlt
+    rw [encSpec] at h
+    cases hv : viewOf v with
+    | null => rw [hv] at h; simp at h
+    | unset => rw [hv] at h; simp at h
+    | empty =>
+      have : v = .empty := by cases v <;> simp [viewOf] at hv; rfl
+      subst this
+      rw [hv] at h
+      simp only [frameChecked] at h
+      split at h
+      · split at h
+        · cases h
+        · simp at h; subst h; exact specBody_empty _
+      · cases h
+    | scalar acc b viaB => rw [hv] at h; simp [encScalarSpec] at h
+    | seq vs =>
+      rw [hv] at h
+      simp only at h
+      split at h
+      · cases h
+      · cases hc : concatEnc (fun v => encSpec elt v true) vs with
+        | error e => rw [hc] at h; cases h
+        | ok cells =>
+          rw [hc] at h
+          have := frame_false _ _ h
+          subst this
+          rw [specBody_list elt v vs hv,
+            concat_cat _ (fun x => specCell elt x) vs cells
+              (fun x _ c hx => cell_of_body elt (sound elt (by simpa [wfTy] using hty)) x c hx) hc]
+          rfl
+    | map kvs => rw [hv] at h; cases h
+    | tuple fs => rw [hv] at h; cases h
+    | udt ks name m => rw [hv] at h; cases h
+  | .set elt => by
+    intro hty v body h hlt
+    rw [encSpec] at h
+    cases hv : viewOf v with
+    | null => rw [hv] at h; simp at h
+    | unset => rw [hv] at h; simp at h
+    | empty =>
+      have : v = .empty := by cases v <;> simp [viewOf] at hv; rfl
+      subst this
+      rw [hv] at h
+      simp only [frameChecked] at h
+      split at h
+      · split at h
+        · cases h
+        · simp at h; subst h; exact specBody_empty _
+      · cases h
+    | scalar acc b viaB => rw [hv] at h; simp [encScalarSpec] at h
+    | seq vs =>
+      rw [hv] at h
+      simp only at h
+      split at h
+      · cases h
+      · cases hc : concatEnc (fun v => encSpec elt v true) vs with
+        | error e => rw [hc] at h; cases h
+        | ok cells =>
+          rw [hc] at h
+          have := frame_false _ _ h
+          subst this
+          rw [specBody_set elt v vs hv,
+            concat_cat _ (fun x => specCell elt x) vs cells
+              (fun x _ c hx => cell_of_body elt (sound elt (by simpa [wfTy] using hty)) x c hx) hc]
+          rfl
+    | map kvs => rw [hv] at h; cases h
+    | tuple fs => rw [hv] at h; cases h
+    | udt ks name m => rw [hv] at h; cases h
+  | .map kt vt => by sorry
+  | .vector elt dim => by sorry
+  | .tuple ts => by sorry
+  | .udt ks name fields => by sorry
+theorem soundTuple : ∀ ts : List CqlTy, SoundTuple ts
+  | [] => by intro _ fs cells h; cases fs <;> simp [encTupleSpec] at h <;> subst h <;> simp [specTuple]
+  | t :: ts => by sorry
+theorem soundUdt : ∀ fields : List (String × CqlTy), SoundUdt fields
+  | [] => by intro _ _ m m' cells l _ h; simp [encUdtSpec] at h; simp [specUdt, h.1]
+  | (n, t) :: rest => by sorry
+end
 
 end ScyllaVerif.Proofs.CodecSpec
